@@ -87,7 +87,7 @@ def run(pid, tier, seed):
         path = vlib.save_replay(pid, "%s.ndjson" % k2.replace(":", "-"), "\n".join(json.dumps(e) for e in f["beh"]) + "\n")
         fld, ev, gv = relevant(pid, f["expected"], f["got"])[0]
         violations.append(("%s:%s" % (f["beh"][0]["f"], fld), "%s built from %s (step %s): `%s` must read %s, the library reads %s "
-                           "(ids: 1..71 constants, 72..118 operand pool, then created nodes; -1 = refused)" % (
+                           "(ids: 1..71 constants, 72..120 operand pool, then created nodes; -1 = refused)" % (
                                f["beh"][0]["f"], f["beh"][0]["a"], f["step"], fld, ev, gv), path))
     if r["crash"]:
         violations.append(("crash", "library crashed during the sweep", vlib.save_replay(pid, "crash.ndjson", r["crash"]["beh"])))
